@@ -1,7 +1,8 @@
 import GolibsVerif.Model.Mixer
 import Driver.Common
 /-
-Driver for C18.  case line: `case <id> <sel> <l1> <l2> <r1> <r2>`; sel ∈ lt|le|ge|true|false|mod.
+Driver for C18.  case line: `case <id> <sel> <l1> <l2> <r1> <r2> [<g1> <g2>]`; sel ∈ lt|le|ge|true|false|mod;
+g1/g2 ("true"/"false", default false) = that input's tail vanishes (HasNext true, then Next (0,false)).
 ops: hasNext → `b <bool>` | next → `nx <v> <ok>` | reset → `rs ok|unimplemented|dataLoss`
 When both sources are resettable the Spec (reference merge) is run alongside the I-model.
 -/
@@ -37,6 +38,12 @@ def comp : Component where
       let a ← parseNatList? l1
       let b ← parseNatList? l2
       let m := Mx.init a b (r1 == "true") (r2 == "true")
+      pure { sf := sf, m := m, s := m.abs, withSpec := r1 == "true" && r2 == "true" }
+    | [sel, l1, l2, r1, r2, g1, g2] => do
+      let sf ← selOf sel
+      let a ← parseNatList? l1
+      let b ← parseNatList? l2
+      let m := Mx.init a b (r1 == "true") (r2 == "true") (g1 == "true") (g2 == "true")
       pure { sf := sf, m := m, s := m.abs, withSpec := r1 == "true" && r2 == "true" }
     | _ => none
   step := fun st ws =>
